@@ -37,6 +37,9 @@ func BuildFeaturePkg(f Feature, idx int, family, tag string, names *Names, withS
 	pkg := fmt.Sprintf("%s.f%03d%s", family, idx, tag)
 	goName := fmt.Sprintf("%sf%03d%s", family, idx, tag)
 	b := &B{Pkg: pkg, Prefix: "", N: names}
+	if f.Nest {
+		b.Pkg = pkg + ".Holder"
+	}
 	rootLocal := f.Build(b)
 	file := &spec.File{
 		Path:     fmt.Sprintf("%s/f%03d%s/defs.proto", family, idx, tag),
@@ -46,7 +49,14 @@ func BuildFeaturePkg(f Feature, idx int, family, tag string, names *Names, withS
 		Messages: b.Msgs,
 		Enums:    b.Enums,
 	}
-	fp := &FeaturePkg{Feat: f, Idx: idx, File: file, Root: pkg + "." + rootLocal, Ctx: map[string]string{}, RPC: map[string]string{}, Path: map[string]string{}}
+	rootFull := pkg + "." + rootLocal
+	if f.Nest {
+		holder := &spec.Message{Name: "Holder", Nested: b.Msgs, Enums: b.Enums,
+			Fields: []*spec.Field{spec.F("labels", 1, spec.String).MapOf(spec.String), spec.F("holder_note", 2, spec.String)}}
+		file.Messages, file.Enums = []*spec.Message{holder}, nil
+		rootFull = pkg + ".Holder." + rootLocal
+	}
+	fp := &FeaturePkg{Feat: f, Idx: idx, File: file, Root: rootFull, Ctx: map[string]string{}, RPC: map[string]string{}, Path: map[string]string{}}
 	rootFQ := "." + fp.Root
 	addMsg := func(m *spec.Message) string {
 		file.Messages = append(file.Messages, m)
